@@ -436,6 +436,30 @@ operator_use_driver("dataiter/list_of_dicts.py::ListOfDicts.__getitem__[obsolete
 operator_use_driver("dataiter/list_of_dicts.py::ListOfDicts.__add__[obsolete receiver: + is a use]", ["+", "*", "copy.copy"])
 
 
+# ---- methods without a deductive contract (C15): rename, *, unique() without keys, three keys ------------------------------
+_RENAMES = [{"c": "a"}, {"a": "b", "b": "a"}, {"c": "a", "a": "b"}, {"z": "q"}, {"b": "a", "c": "b"}]
+
+
+def _rename(l, r):
+    """all renames applied at once to a NEW dict per item (r maps new name -> old name); keys keep their position"""
+    inv = {old: new for new, old in r.items()}
+    return [{inv.get(k, k): v for k, v in x.items()} for x in l]
+
+
+simple(LP_ := "dataiter/list_of_dicts.py::ListOfDicts.rename[new=old pairs, also swaps and shifts]",
+       lambda run: ((l, i) for l in lists(maxlen(run)) for i in range(len(_RENAMES))),
+       lambda d, i: d.rename(**_RENAMES[i]), lambda l, i: _rename(l, _RENAMES[i]), B)
+simple("dataiter/list_of_dicts.py::ListOfDicts.__mul__",
+       lambda run: ((l, n) for l in lists(maxlen(run)) for n in (0, 1, 2, 3)),
+       lambda d, n: d * n, lambda l, n: l * n, B)
+simple("dataiter/list_of_dicts.py::ListOfDicts.unique[no keys: whole items]",
+       lambda run: ((l,) for l in full_lists(maxlen(run))),
+       lambda d: d.unique(), lambda l: [x for i, x in enumerate(l) if x not in l[:i]], B)
+simple("dataiter/list_of_dicts.py::ListOfDicts.fill_missing_keys[key=value, None values are present values]",
+       lambda run: ((l, v) for l in lists(maxlen(run)) for v in (None, 7)),
+       lambda d, v: d.deepcopy().fill_missing_keys(a=v, c=v), lambda l, v: [{**{"a": v, "c": v}, **x} if False else dict(x, **{k: v for k in ("a", "c") if k not in x}) for x in l], B)
+
+
 def second_operand_driver(name, op):
     @driver(name)
     def _d(run):
